@@ -414,6 +414,9 @@ func comparePkgDir(sc *bw.Scenario, w *world, pi int, pdir string, vi int, out *
 		switch f.Kind {
 		case "dir":
 			if model.DirGone(rules, p) {
+				if present && hasTwin {
+					continue // the directory may be the content twin's (see above)
+				}
 				if present {
 					out.Violate("C03", "bundle-excluded-kept", "directory-skeleton", fmt.Sprintf("variant %d: package %d: directory %s is selected by its rules %q with no later '!' rule, yet it is still in the bundle", vi, pi, p, rulesOf(sc, pi)))
 				} else {
